@@ -1,0 +1,29 @@
+//go:build verif
+
+package bitfield
+
+// Contracts for the verif build tag (comment-only; see /verif/DESIGN.md).
+
+// A field read as a set of bit positions. The word-level bit twiddling of Set and IsSubset is
+// not within the verifier's reach (variable shifts of 64-bit words): their contracts below are
+// assumed, stated over bit().
+//@ spec bitOf(w uint64, k int) bool
+//@ spec bit(f Field, i int) bool decreases 0 = bitOf(f[i / 64], i % 64)
+
+//@ func New
+//@ assumed
+//@ pure
+//@ ensures[size] len(result) == 1 + (n-1)/64 && fresh(result)
+//@ ensures[empty] forall(i, 0, 64 * len(result), !bit(result, i))
+
+//@ func (Field).Set
+//@ assumed
+//@ requires[nopanic] 0 <= i && i < 64 * len(f)
+//@ modifies f[i/64 : i/64 + 1]
+//@ ensures[set] bit(f, i)
+//@ ensures[others] forall(j, 0, 64 * len(f), j != i ==> bit(f, j) == old(bit(f, j)))
+
+//@ func (Field).IsSubset
+//@ assumed
+//@ pure
+//@ ensures[subset] result ==> forall(i, 0, 64 * len(f), bit(f, i) ==> bit(o, i))
